@@ -179,6 +179,7 @@ class Exec:
         self.tid_of = {}
         self._req_of_event = {}
         self._pl_entering = set()
+        self.ex_stack = {}
         self.tl_entered = set()  # (tid, req id) whose thread-level frame exists
         self.npids = case["nprocs"]
         for i, t in enumerate(case["threads"]):
@@ -239,8 +240,6 @@ class Exec:
                 return ("tl", ["shExit", vt.tid])
         if desc[0] == "wait":
             return ("tl", ["exWake", vt.tid, req["re"]])
-        if desc[0] == "body-exit" and not req["sh"] and self.api == "thread":
-            return ("tl", ["exExit", vt.tid])
         if desc[0] == "acq" and isinstance(desc[1], VLock) and desc[1].is_point:
             if ph == "enter":
                 return ("pl", ["enter", vt.proc, vt.tid, req["sh"], req["bl"], req["re"]])
@@ -351,6 +350,10 @@ class Exec:
             if vt.done or vt.pending is None or vt.phase is None:
                 continue
             ph, req = vt.phase
+            d = vt.pending[0]
+            VLock = rt.procs[vt.proc]["_classes"][0]
+            if d[0] == "acq" and isinstance(d[1], VLock) and not d[1].is_point:
+                continue  # a pool mutex: held only for a bounded region (at most across an open/close call)
             if ph == "enter" and not req["bl"] and not vt.pending[1]():
                 self.fail("nonblocking-waits", f"non-blocking request {req['id']} of thread {vt.tid} is parked at {vt.pending[0][0]}")
 
@@ -459,6 +462,8 @@ class Exec:
                         self.replay_tl(vt, req, ev, nlog)
                     else:
                         self.replay_pl(vt, req, ev, nlog)
+                if self.model_on:
+                    self.drain_events(vt)
                 self.check_state()
                 if steps > 2000:
                     self.fail("livelock", "more than 2000 steps")
@@ -486,13 +491,21 @@ class Exec:
                 self.k.append(f"step {ev}: model outcome entered real {real_out}")
             else:
                 self.tl_entered.add((vt.tid, req["id"]))
+                if not req["sh"]:
+                    self.ex_stack.setdefault(vt.tid, []).append(req)
         else:
             if model_out != real_out:
                 self.k.append(f"step {ev}: model outcome {model_out} real {real_out}")
             if model_out == "entered":
                 self.tl_entered.add((vt.tid, req["id"]))
+                if not req["sh"]:
+                    self.ex_stack.setdefault(vt.tid, []).append(req)
         if ev[0] in ("shExit", "exExit"):
             self.tl_entered.discard((vt.tid, req["id"]))
+        if ev[0] in ("shEnter", "exEnter", "exWake") and vt.events:
+            # the request was refused later in the same step and the frame is already gone again
+            self.drain_events(vt)
+            return
         self.compare_tl(vt, req, ev, ans[2])
         self.tags.add("ev:" + ev[0])
         self.tags.add("out:" + real_out)
@@ -543,15 +556,24 @@ class Exec:
             self.k.append(f"process state after {ev}: model {model_st} real {real_st}")
         self.tags.add("pev:" + ev[0])
         self.tags.add("pout:" + real_out)
-        # an exclusive thread-level frame is released without a scheduling point once the process level is
-        # left (normally or by an exception): replay that on the thread-level model too
-        if real_out in ("exited", "RecursiveDeadlockError", "WouldBlock") and not req["sh"] \
-                and (vt.tid, req["id"]) in self.tl_entered:
+
+    def drain_events(self, vt):
+        """The exclusive thread-level exit has no scheduling point of its own; the observer wrapped around
+        thread_level_lock tells when it happened, and it is replayed on the model here."""
+        evs, vt.events = vt.events, []
+        for kind, key, shared in evs:
+            if kind != "tl-exit" or shared:
+                continue
+            stack = self.ex_stack.get(vt.tid, [])
+            if not stack:
+                self.k.append(f"thread {vt.tid} left an exclusive thread-level lock the model does not know about")
+                continue
+            req = stack.pop()
             tev = ["exExit", vt.tid]
             a2 = self.drv.ask(["step", self.tl_key(vt, req), tev])
             self.tl_entered.discard((vt.tid, req["id"]))
             if a2[0] != "ok":
-                self.k.append(f"step {tev} (after {ev}): model {a2}")
+                self.k.append(f"step {tev}: model {a2}")
             else:
                 self.compare_tl(vt, req, tev, a2[2])
             self.tags.add("ev:exExit")
